@@ -15,9 +15,15 @@ ENGINES = [
      "kind_free_text": "Go test files injected with go test -overlay (tag verif) that drive the real code on generated/solved/enumerated cases beside independent reference models (harness/ref) and report observed classes, counters and violations"},
     {"name": "guard-page / write-protected-page monitor", "path": "harness/hk/guard.go", "serves_properties": ["C10", "C11", "C17"],
      "kind_free_text": "mmap + mprotect(PROT_NONE / PROT_READ) around every argument, debug.SetPanicOnFault turns an out-of-range access or a write to an input into an observable fault with its address"},
+    {"name": "memcheck taint sanitizer", "path": "tools/engine_memcheck.py", "serves_properties": ["C08"],
+     "kind_free_text": "Valgrind 3.19 memcheck over go1.26.8 -tags valgrind test binaries; secrets marked undefined through client requests, reports (XML) with client-request origin judged offline against verdict-site rules computed from the current source (tools/goranges)"},
+    {"name": "vtrace + vtcheck", "path": "tools/vtrace.c, tools/vtcheck/", "serves_properties": ["C09", "C11", "C16"],
+     "kind_free_text": "own ptrace tracer (breakpoint at a symbol, single-step to the return address, log pc + GPRs; log-only breakpoints) and offline monitors over the traces: (pc, effective address) equality, dynamic taint interpreter, access audit, static-instruction coverage, exponent replay of the inversion addition chains"},
     {"name": "Go race detector", "path": "tools/vcheck.py", "serves_properties": ["C17"],
      "kind_free_text": "go test -race on the injected concurrent workloads, GORACE halt_on_error=0 log_path=..., reports counted and deduplicated by repository frames"},
 ]
+
+HOOK_COMMITS = ["4af10ce", "bc1d70b"]
 
 NOTES = ("All checks rebuild /repo's current working tree (go test -overlay adds the monitors; nothing in /repo is replaced). "
          "Exit 0 = held on everything explored, 1 = VIOLATION line(s) with replay files under /verif/replays, 2 = INCONCLUSIVE (infrastructure). "
@@ -25,7 +31,6 @@ NOTES = ("All checks rebuild /repo's current working tree (go test -overlay adds
          "Genuine defects found on the pinned tree were repaired by 'fix:' commits in /repo and are listed in KNOWN_FINDINGS.txt.")
 
 NOT_CLAIMED = {
-    "C09": "engine (ptrace single-step tracer) under construction in this session; not yet registered",
 }
 
 CHECKS = {
@@ -80,8 +85,8 @@ CHECKS = {
     "C16": {
         "level": "exploration",
         "rule": "differential monitor vs math/big for both fields: operands from all 4-limb combinations of a carry-critical limb alphabet (0,1,2,2^32+-1,2^63,2^64-1, limbs of m, m-1, 2^256 mod m, m>>1; every 5th combination in quick, all in thorough) plus random; ops add/sub/opp/mul/square/select/bytes/ToBigInt/IsZero/Equal incl. aliased receivers, partners chosen to hit a+b=0 and a+b=m-1; Invert vs ModInverse and x*inv=1, Invert(0)=0; SetBytes rejects [m,2^256) at the edges, at every first-exceeding byte, randomly, and wrong lengths; MultiSelect on widths 1..127; a class is (field, top and low limb pattern | random | decoding class)",
-        "assumptions": ["oracle is math/big; the exact inversion exponent (p-2, n-2) is established separately by the op-trace monitor when the tracer engine is available, algebraically here"],
-        "units": [gt("fiat", "./sm2/internal/fiat/", "TestVerifC16")],
+        "assumptions": ["oracle is math/big", "the exact inversion exponents (p-2, n-2) are established by the op-trace monitor: every sm2Mul/sm2Square (sm2ScalarMul/Square) call of one inversion is recorded by breakpoints and replayed on exponents; because the chain is straight-line code one trace characterises all inputs"],
+        "units": [gt("fiat", "./sm2/internal/fiat/", "TestVerifC16"), {"name": "optrace", "engine": "engine_optrace"}],
     },
     "C14": {
         "level": "exploration",
@@ -122,8 +127,8 @@ CHECKS = {
     "C11": {
         "level": "exploration",
         "rule": "guard-page monitor: every pointer argument in its own mapping with PROT_NONE pages on both sides, end-abutting and start-abutting; Block Encrypt/Decrypt for dst/src lengths 0..32 (and short-len/large-cap heap slices), Seal/Open/forged/short-ciphertext for every plaintext length 0..1100 (0..300 plus a seed-rotated fifth and all class lengths in quick), aad 0..300, nonce 1..300, tags 12..16, dst nil or exact-capacity guarded; assembly routines x1..x16, expandKeyAsm, gHashBlocks (1..40 blocks), sealAsm/openAsm called directly with exact-size buffers and round keys laid out as the cipher object (enc then dec, nothing after); a hardware fault = out-of-range access, an ordinary panic on too-short arguments = detected misuse; a class is (path, op, residues mod 16, tag, placement, dst kind)",
-        "assumptions": ["a positive control (deliberate 1-byte over-read) must fault in every run", "faults are converted by debug.SetPanicOnFault; red zones are one page wide, non-adjacent wild accesses beyond a page are not seen by this monitor", ARM64_NOTE],
-        "units": [gt("sm4", "./sm4/", "TestVerifC11")],
+        "assumptions": ["a positive control (deliberate 1-byte over-read) must fault in every run", "faults are converted by debug.SetPanicOnFault; red zones are one page wide; non-adjacent accesses are covered by the second monitor: the single-step traces of all assembly routines are audited offline, every effective address (with its access size) must lie inside a buffer handed to the routine, its argument frame or read-only data of the binary (masked vector accesses are audited with the size of one element, the guard pages judge their true extent)", ARM64_NOTE],
+        "units": [gt("sm4", "./sm4/", "TestVerifC11"), {"name": "vtrace-audit", "engine": "engine_vtrace", "prop": "C11", "shards": 16}],
     },
     "C18": {
         "level": "exploration",
@@ -145,5 +150,13 @@ CHECKS = {
         "rule": "each case = one primitive or entry point executed under memcheck with its secret marked undefined: Level 1 (strict, primitives in isolation: ConstantTimeCmp l=0..64, both SetBytes, field/scalar arithmetic, both Fermat inversions, MultiSelect widths 15..127 all window values, all four comb schemes, ScalarMult lengths 1..40, point add/double/select, safe Bytes/GetAffineX, TestPrivateKey) allows reports only at verdict sites lexically outside every loop (ranges computed from the current source with go/parser); Level 2 (SignHashed, GenerateKey, DerivePublic, one taint source per run) applies deny rules V1 Euclid/division, V2 report inside curve/field/table arithmetic, V3 exit inside a comparison loop; two planted gadgets must be reported in every process; a class is a tainted scenario",
         "assumptions": ["memcheck tracks the data flow along the executed path for all secret values at once; paths not executed are not covered", "memcheck build uses go1.26.8/amd64 with -tags valgrind (the default toolchain binary is not the one observed)", "instruction-level timing (variable-latency multiply/divide) is invisible", "reports in glue code outside the operations the statement enumerates (math/big finishing of s, the *_Unsafe affine conversions, rejection-loop verdicts) are counted in the evidence but are not violations (DESIGN.md C08)"],
         "units": [{"name": "memcheck", "engine": "engine_memcheck"}],
+    },
+    "C09": {
+        "level": "exploration",
+        "engine_name": "ptrace single-step tracer + offline trace monitors",
+        "technique": "runtime monitoring: single-step instruction/address traces of the real amd64 assembly routines (ptrace), checked offline by a trace-equality monitor and a dynamic taint interpreter",
+        "rule": "each case = one invocation of an assembly routine (expandKeyAsm, cryptoBlockAsm x1..x16 with enc and dec schedules, gHashBlocks, copyAsm, needExpand, sealAsm, openAsm) single-stepped with all buffers at fixed addresses; per length configuration >=4 content assignments (random A/B, all-zero, all-0xFF, single-bit key neighbours) must give identical (pc, effective address) sequences; openAsm is compared within its verdict class (4 authentic, 5 forged incl. first/last/middle tag bit, ciphertext bit, all-zero); a taint interpreter over the same trace (sources: round keys, key, nonce, aad, plaintext/ciphertext, H, tag) flags tainted address registers and tainted flags at Jcc/SETcc/CMOVcc except one verdict jump per openAsm call; configurations drive every loop label taken and not taken (quick ~60 GCM configurations; thorough every plaintext length 0..1100, aad 0..300, nonce 1..300, tags 12..16); a class is (routine, length configuration, verdict class)",
+        "assumptions": ["covers the instructions executed by the traced configurations (static coverage per routine is reported; unexecuted instructions are listed)", "objdump decodes every instruction of the routines (checked: no '(bad)')", "microarchitectural effects (variable latency, port contention) are invisible", "arm64 routines (asm_arm64.s, gcm_arm64.s) cannot be executed in this sandbox and are not covered"],
+        "units": lambda tier: [{"name": "vtrace", "engine": "engine_vtrace", "prop": "C09", "shards": 16}],
     },
 }
